@@ -2,6 +2,7 @@ SPECIFICATION Spec
 CONSTANTS
   Params <- RecvCoreQuick
   MaxBase = 4
+  MaxHist = 1000000
 VIEW View
 ACTION_CONSTRAINT PrintScript
 CHECK_DEADLOCK FALSE
